@@ -6,6 +6,7 @@ export CARGO_NET_OFFLINE=true
 cargo build --offline --quiet --target-dir target/std
 cargo build --offline --quiet --target-dir target/nostd --no-default-features
 cargo build --offline --quiet --target-dir target/serde --features with_serde
+RUSTFLAGS="--check-cfg cfg(helgoboss_midi_verif)" cargo build --offline --quiet --target-dir target/nohook
 cd /verif/spec
 for m in TraceWorld Tables PnRun PollRun mc/MC_Cc14 mc/MC_Pn mc/MC_Poll mc/MC_Sender mc/MC_Iso mc/MC_ShortMsg mc/MC_Ints mc/MC_PnMsg mc/MC_MidiSystem; do
   d=$(mktemp -d /verif/work/sany.XXXXXX); cp /verif/spec/*.tla /verif/spec/mc/*.tla $d/
